@@ -17,6 +17,38 @@ def _job(args):
     return S.run(tid, kind, prep, ops)
 
 
+def _deck_job(args):
+    """A Deck.tla history (MC_Deck simulation, full public-API alphabet): the XSD monitor judges every part of the initial deck
+    and of the package saved at the end of the history."""
+    import io
+    from lxml import etree
+    from mbt.drive import deck as K, opc as D
+    from mbt.monitor import xsd
+    tid, h = args
+
+    def verdict(raw):
+        out = []
+        for n, b in D.read_zip(io.BytesIO(raw)).items():
+            if n.endswith(".xml") and not n.startswith("[") and "/_rels/" not in n:
+                try:
+                    out.append({"role": "/" + n, "err": xsd.errors(b)})
+                except etree.XMLSyntaxError:
+                    out.append({"role": "/" + n, "err": ["not-well-formed"]})
+        return sorted(out, key=lambda x: x["role"])
+    run = K.DeckRun(h[0]["init"])
+    base = verdict(run.raw0)
+    # slide parts are renamed by the first access: judge by presentation position
+    for a in h[1:]:
+        run.apply(a)
+    b = io.BytesIO()
+    run.prs.save(b)
+    final = verdict(b.getvalue())
+    # a renamed slide part would look like a new part with the old one's baseline lost: baseline errors are matched by signature only
+    base_sigs = sorted({e for p in base for e in p["err"]})
+    final = [{"role": p["role"], "err": [e for e in p["err"] if e not in base_sigs]} for p in final]
+    return {"id": tid, "base": [{"role": p["role"], "err": []} for p in base], "steps": [], "final": final, "unexpected": [], "h": h}
+
+
 def catalogue():
     from mbt.catalog import slideops as CAT
     tab = CAT.table()
@@ -89,6 +121,19 @@ def main() -> int:
             rest = [j for j in jobs if len(j[3]) > 2]
             jobs = keep + rnd.sample(rest, 160000 - len(keep))
     traces = E.pmap(_job, jobs, procs=16, chunk=8)
+    # second host: Deck histories over the full public-API alphabet (multi-object decks, notes, media, charts, links)
+    deck_jobs = []
+    if not replay:
+        from mbt.checks import c02, deck_common as DC
+        paths, _, rd = DC.explore(work, "deckhost", c02.FULL, 10 if thorough else 8, [1, 2, 3, 4, 5, 6], sim="num=%d" % (1500 if thorough else 150))
+        deck_jobs = [("deck:%d" % i, p) for i, p in enumerate(paths)]
+        per["deck_histories"] = {"histories": len(paths), "depth": 10 if thorough else 8}
+    elif rp.get("deck_history"):
+        deck_jobs = [(rp["id"], rp["deck_history"])]
+        jobs, traces = [], []
+    deck_traces = E.pmap(_deck_job, deck_jobs, procs=16, chunk=2)
+    jobs = jobs + [(t["id"], "deck", "history", ["<history>"]) for t in deck_traces]
+    traces = traces + deck_traces
     clean = lambda t: {k: v for k, v in t.items() if k in ("id", "base", "steps", "final")}  # noqa: E731
     if selftest:
         t = json.loads(json.dumps(clean(next(x for x in traces if len(x["steps"]) > 1 and x["steps"][-1]["parts"]))))
@@ -126,7 +171,7 @@ def main() -> int:
             clause = "+".join(sorted(b["failing"]))
             for sg in (sigs or ["-"])[:4]:
                 rep.reject("%s@%s[%s|%s]" % (clause if sigs else "+".join(only_clause), opname, sg, j[2]),
-                           {"module": "SlideOps", "id": v["id"], "kind": j[1], "prep": j[2], "ops": j[3], "failing": b},
+                           {"module": "SlideOps", "id": v["id"], "kind": j[1], "prep": j[2], "ops": j[3], "failing": b, "deck_history": t.get("h")},
                            "kind=%s prep=%s ops=%s step %d" % (j[1], j[2], j[3], b["k"]))
     unexpected = {}
     for t in traces:
@@ -139,7 +184,8 @@ def main() -> int:
     used = {}
     for j in jobs:
         for o in j[3]:
-            used[o] = used.get(o, 0) + 1
+            if o != "<history>":
+                used[o] = used.get(o, 0) + 1
     unused = sorted(o["name"] for o in tab if o["kinds"] and o["name"] not in used)
     if unused and not replay:
         raise E.MachineryError("vacuous: catalogue operations never scheduled: %s" % unused)
